@@ -174,7 +174,7 @@ func runC47(c *Ctx) {
 		if len(required) < 3 {
 			c.Unresolved("C47.W1", "fewer than 3 in-progress indicators found in DB.mu.compact")
 		}
-		waits := instrs(closeFn, And(CallTo("sync.(*Cond).Wait"), Pred("on compact.cond", func(in ssa.Instruction) bool {
+		waitM := And(CallTo("sync.(*Cond).Wait"), Pred("on compact.cond", func(in ssa.Instruction) bool {
 			cc := getCallCommon(in)
 			if cc == nil || len(cc.Args) == 0 || st == nil {
 				return false
@@ -186,7 +186,34 @@ func runC47(c *Ctx) {
 				}
 			}
 			return false
-		})))
+		}))
+		waits := instrs(closeFn, waitM)
+		if len(waits) == 0 {
+			// the wait loops may live in a helper Close calls (two levels)
+			seen := map[*ssa.Function]bool{closeFn: true}
+			var descend func(f *ssa.Function, d int)
+			descend = func(f *ssa.Function, d int) {
+				for _, b := range f.Blocks {
+					for _, in := range b.Instrs {
+						call, ok := in.(*ssa.Call)
+						if !ok {
+							continue
+						}
+						cal := call.Common().StaticCallee()
+						if cal == nil || seen[cal] || !inModule(cal) || len(cal.Blocks) == 0 {
+							continue
+						}
+						seen[cal] = true
+						if ws := instrs(cal, waitM); len(ws) > 0 {
+							waits = append(waits, ws...)
+						} else if d < 2 {
+							descend(cal, d+1)
+						}
+					}
+				}
+			}
+			descend(closeFn, 1)
+		}
 		if len(waits) == 0 {
 			c.Unresolved("C47.W1", "DB.Close does not wait on compact.cond")
 		}
@@ -234,7 +261,7 @@ func runC47(c *Ctx) {
 					if f.Name() != nm {
 						continue
 					}
-					c.Ob("C47.W1", closeFn, "Close waits until compact."+nm+" shows no work in progress", c.P.Pos(w.Pos()), read[f],
+					c.Ob("C47.W1", w.Parent(), "Close waits until compact."+nm+" shows no work in progress", c.P.Pos(w.Pos()), read[f],
 						map[bool]string{true: "", false: "the wait loop of DB.Close does not test compact." + nm + ": a job of that kind still running when Close is called outlives it (Close reports leaked references or panics in the file cache, and the goroutine keeps using the closed DB)"}[read[f]])
 				}
 			}
